@@ -35,11 +35,12 @@ func (p Prop) IsVector() bool {
 type Config struct {
 	Name      string
 	Props     []Prop
-	CacheSize int64 // -1 unlimited, 0 disabled, small positive = eviction
-	Mem       bool  // in-memory backend
-	MaxPoint  int   // UserPlan.MaxPointSize
-	NoExtras  bool  // no unindexed fields
-	NIDs      int   // size of the id universe (0 = MaxID)
+	CacheSize int64   // -1 unlimited, 0 disabled, small positive = eviction
+	Mem       bool    // in-memory backend
+	MaxPoint  int     // UserPlan.MaxPointSize
+	NoExtras  bool    // no unindexed fields
+	NIDs      int     // size of the id universe (0 = MaxID)
+	PVec      float64 // probability that a vector property is present on insert (0 = as the others)
 	// EmptyStrings: indexed string values are drawn uniformly, "" included
 	EmptyStrings bool
 	// RareEmpty: "" appears with probability 1/150 per indexed string value
@@ -169,6 +170,9 @@ type GenDoc struct {
 type Gen struct {
 	R   *rand.Rand
 	Cfg Config
+	// Last holds the real values of the indexed properties of the document
+	// generated last (by property name)
+	Last map[string]any
 }
 
 // Coordinates (degrees) used with the haversine metric.
@@ -266,7 +270,7 @@ func (g *Gen) extra() any {
 	case 4:
 		return []any{int64(g.R.Intn(3)), "é", nil}
 	case 5:
-		return map[string]any{}
+		return map[string]any{"k": "_delete", "l": []any{"_delete"}}
 	default:
 		return true
 	}
@@ -277,7 +281,63 @@ var bigString = strings.Repeat("B", BigWeight)
 // Doc generates a document. forUpdate: a partial document in which fields may
 // carry the "_delete" marker. pInc = probability that a property is present.
 func (g *Gen) Doc(forUpdate bool, pInc float64) GenDoc {
+	return g.DocFrom(forUpdate, pInc, nil)
+}
+
+// derive builds a new value of property p from the value the point is believed
+// to hold (generation bias only): arrays and texts are resampled with
+// replacement from their own elements (same length), strings change case.
+func (g *Gen) derive(p Prop, old any) (any, any, bool) {
+	switch p.Type {
+	case models.IndexTypeStringArray:
+		o, ok := old.([]string)
+		if !ok || len(o) < 2 {
+			return nil, nil, false
+		}
+		rs := make([]string, len(o))
+		as := make([]int, len(o))
+		for i := range rs {
+			rs[i] = o[g.R.Intn(len(o))]
+			as[i] = StrIdx(rs[i])
+		}
+		return rs, as, true
+	case models.IndexTypeText:
+		o, ok := old.(string)
+		ws := strings.Fields(o)
+		if !ok || len(ws) < 2 {
+			return nil, nil, false
+		}
+		n := len(ws) + g.R.Intn(3) - 1
+		out := make([]string, n)
+		for i := range out {
+			out[i] = ws[g.R.Intn(len(ws))]
+		}
+		s := strings.Join(out, " ")
+		tf, k := Analyse(s)
+		return s, map[string]any{"tf": tf, "len": k}, true
+	case models.IndexTypeString:
+		o, ok := old.(string)
+		if !ok {
+			return nil, nil, false
+		}
+		for _, c := range []string{strings.ToUpper(o), strings.ToLower(o)} {
+			if c != o {
+				for i, q := range StrPool {
+					if q == c {
+						return c, i + 1, true
+					}
+				}
+			}
+		}
+	}
+	return nil, nil, false
+}
+
+// DocFrom is Doc with the values the point is believed to hold (by property
+// name), from which some of the new values are derived.
+func (g *Gen) DocFrom(forUpdate bool, pInc float64, cur map[string]any) GenDoc {
 	real := models.PointAsMap{}
+	g.Last = map[string]any{}
 	type fieldAbs struct {
 		ix  map[string]any
 		del bool
@@ -310,10 +370,20 @@ func (g *Gen) Doc(forUpdate bool, pInc float64) GenDoc {
 		}
 		nested := strings.Contains(props[0].Name, ".")
 		if !nested {
-			if g.R.Float64() < pInc {
+			pi := pInc
+			if !forUpdate && props[0].IsVector() && g.Cfg.PVec > 0 {
+				pi = g.Cfg.PVec
+			}
+			if g.R.Float64() < pi {
 				rv, av := g.propValue(props[0])
+				if old, ok := cur[props[0].Name]; ok && g.R.Intn(3) == 0 {
+					if dr, da, ok := g.derive(props[0], old); ok {
+						rv, av = dr, da
+					}
+				}
 				real[f] = rv
 				get(f).ix[props[0].Name] = av
+				g.Last[props[0].Name] = rv
 			}
 			continue
 		}
@@ -324,8 +394,14 @@ func (g *Gen) Doc(forUpdate bool, pInc float64) GenDoc {
 			for _, p := range props {
 				if g.R.Float64() < 0.75 {
 					rv, av := g.propValue(p)
+					if old, ok := cur[p.Name]; ok && g.R.Intn(3) == 0 {
+						if dr, da, ok := g.derive(p, old); ok {
+							rv, av = dr, da
+						}
+					}
 					setNested(m, strings.Split(p.Name, ".")[1:], rv)
 					fa.ix[p.Name] = av
+					g.Last[p.Name] = rv
 				}
 			}
 			if g.R.Intn(3) == 0 {
@@ -337,7 +413,9 @@ func (g *Gen) Doc(forUpdate bool, pInc float64) GenDoc {
 	if !g.Cfg.NoExtras {
 		for _, f := range []string{"x", "y"} {
 			if g.R.Float64() < 0.4 {
-				if forUpdate && g.R.Float64() < 0.25 {
+				if g.R.Float64() < 0.25 {
+					// on an update the marker removes the field; an insert
+					// stores the string verbatim (the model ignores d on insert)
 					real[f] = "_delete"
 					get(f).del = true
 				} else {
